@@ -1,7 +1,7 @@
 /-
   C15b, the semantics predicates and helper lemmas for `Props/C15b.lean`: the concrete geometry over
   ℝ (`realGeo`), what `arc_to` must do (`ArcToSem`) and the proof that it does (`arcTo_sem`), the
-  centre-form arc (`arcOf`, `arcStart`, `StaleCase`), the witness state of finding
+  centre-form arc (`arcOf`, `arcStart`), the witness state of the repaired finding
   C15-arc-zero-sweep-stale-position, the side condition on centre-form arcs in whole sequences
   (`CenterArcsOk`) and the laws `RunOk` of the concrete geometry (`runOk_real`).
 -/
@@ -114,12 +114,6 @@ noncomputable def arcOf (s : St ℝ) (r : ArcArgs ℝ) : Arc ℝ :=
 /-- its start point `arc.from()`: the ellipse point at the start angle -/
 noncomputable def arcStart (s : St ℝ) (r : ArcArgs ℝ) : Pt ℝ := ofP ((arcOf s r).sample 0)
 
-/-- the one situation in which `arc` leaves `current_position` behind the path: zero sweep, inside
-a sub-path, current position off the ellipse but less than 0.1 away from the start point -/
-def StaleCase (s : St ℝ) (r : ArcArgs ℝ) : Prop :=
-  s.needMoveTo = false ∧ r.sweepAngle = 0 ∧ nearStart (arcStart s r) s.cur = true
-    ∧ arcStart s r ≠ s.cur
-
 /-- centre form, non-zero radii, current position on the ellipse: the arc starts exactly at the
 current position -/
 theorem arcStart_on_curve (s : St ℝ) (r : ArcArgs ℝ) (hx : r.radii.x ≠ 0) (hy : r.radii.y ≠ 0)
@@ -153,11 +147,15 @@ theorem wArc_start : (arcOf wS wR).sample 0 = ⟨1, 0⟩ := by
   apply P.ext' <;>
     simp [Arc.sampleEllipse, Arc.rotate, wR, toP, transc_sin_real, transc_cos_real, geom]
 
-/-- the condition on centre-form `arc` commands: issued outside a sub-path, or skipped, or with the
-current position on the ellipse (what the code's comment "if the current position is not on the
-arc …" expects) -/
+/-- the condition on centre-form `arc` commands for the CHAIN statement (not needed for
+`current_position`): issued outside a sub-path, or skipped, or the arc's start point is less than 0.1
+from the current position (the code then draws the connecting line), or the sweep is zero (no
+piece), or the current position lies on the ellipse (what the code's comment "if the current position
+is not on the arc …" expects).  What is excluded: inside a sub-path, start point 0.1 or more away —
+the code draws no connecting line and the first piece does not start at the path's current point. -/
 def CenterArcOk [Eps ℝ] (s : St ℝ) : Cmd ℝ (ArcArgs ℝ) → Prop
   | .arc r => s.needMoveTo = true ∨ approxEqPt s.cur r.center = true ∨
+      nearStart (arcStart s r) s.cur = true ∨ r.sweepAngle = 0 ∨
       (r.radii.x ≠ 0 ∧ r.radii.y ≠ 0 ∧
         ∃ t, toP s.cur = toP r.center + Arc.sampleEllipse (toP r.radii) r.xrot t)
   | _ => True
@@ -178,7 +176,7 @@ theorem endpoint_ok_real [Eps ℝ] (heps : 2 / 10 ^ 6 ≤ (Eps.eps : ℝ)) (r : 
     simp only [svgArcOutQ, hs, Bool.false_eq_true, if_false, SvgOutOk, arcOutQ, hf, harc]
     split
     · trivial
-    · refine ⟨fun _ => ?_, ?_⟩
+    · refine ⟨fun _ _ _ => ?_, ?_⟩
       · simp only [Scalar.zero, sc_zero, e0]; rfl
       · rw [toP_ofP]
         simp only [Scalar.zero, sc_zero]
@@ -192,10 +190,16 @@ theorem center_ok_real [Eps ℝ] (s : St ℝ) (r : ArcArgs ℝ) (h : CenterArcOk
   split
   · trivial
   · rename_i hsk
-    refine ⟨fun hin => ?_, ?_⟩
-    · rcases h with h | h | ⟨hx, hy, t, ht⟩
+    refine ⟨fun hin hnear hq => ?_, ?_⟩
+    · rcases h with h | h | h | h | ⟨hx, hy, t, ht⟩
       · simp [h] at hin
       · exact absurd h hsk
+      · simp only [arcStart, arcOf] at h
+        simp only [Scalar.zero, sc_zero] at hnear
+        rw [h] at hnear; exact absurd hnear (by simp)
+      · exfalso
+        obtain ⟨_, _, _, _, hnil⟩ := quadsOf_run_real (arcOf s r)
+        exact hq (hnil.mpr h)
       · have := arcStart_on_curve s r hx hy t ht
         simpa only [arcStart, arcOf, Scalar.zero, sc_zero] using this
     · rw [toP_ofP]
